@@ -195,27 +195,7 @@ func c17(c *Ctx) {
 	// "rewinding the offset discards what follows ... after flush and close, reopening finds ... the same size": the size
 	// found at reopen is the size of the file (singleapp) / the position of the last chunk file (multiapp), so a rewind
 	// has to shorten the file and drop the chunk files after the new head. Neither happens today: known findings.
-	rr := "C17.2/rewind-is-persistent"
-	if f := c.mustFn(rr, aofT+"SetOffset"); f != nil {
-		tr := sites(f, callTo("os.(*File).Truncate"))
-		if len(tr) == 0 {
-			c.fail(rr, fnName(f)+":truncates-file", c.pos(f.Pos()), "SetOffset moves fileOffset back and never truncates the file: after flush, close and reopen the size is the old one again and the discarded bytes are readable")
-		} else {
-			c.ruleMustPass(rr, f, nil, "f.Truncate", callTo("os.(*File).Truncate"), whenCond(true, func(a string) bool { return strings.Contains(a, " == ") && strings.Contains(a, "param:newOffset") }), false)
-		}
-	}
-	if f := c.mustFn(rr, mfT+"SetOffset"); f != nil {
-		rm := callTo("os.Remove", "os.RemoveAll")
-		dyn := func(in ssa.Instruction) bool {
-			cc := callOf(in)
-			return cc != nil && !cc.IsInvoke() && cc.StaticCallee() == nil && hasFieldSuffix(desc(cc.Value), "appRemove")
-		}
-		if len(sites(f, anyOf(rm, dyn))) == 0 {
-			c.fail(rr, fnName(f)+":drops-later-chunks", c.pos(f.Pos()), "SetOffset to an earlier chunk leaves the later chunk files in place: reopening picks the last chunk file as the head, so the size is the old one again")
-		} else {
-			c.ok(rr, fnName(f)+":drops-later-chunks", c.pos(f.Pos()), "later chunk files are removed")
-		}
-	}
+	c17RewindPersistent(c, "C17.2/rewind-is-persistent")
 
 	// ---- reads ----------------------------------------------------------------------------------------
 	r = "C17.2/singleapp-readat"
@@ -333,4 +313,30 @@ func c14DiscardGuard(c *Ctx, r string) {
 		n := len(sites(g, callTo("os.Remove", "os.(*File).Truncate", "os.Truncate")))
 		c.check(n == 0, r, fnName(g)+":no-removal", c.pos(g.Pos()), "single-file DiscardUpto only validates", "single-file DiscardUpto removes or truncates data")
 	}
+}
+
+// c17RewindPersistent: SetOffset to a smaller offset must survive flush, close and reopen (also used by C08: a rolled
+// back hash tree is rolled back by rewinding its three logs).
+func c17RewindPersistent(c *Ctx, rr string) {
+	if f := c.mustFn(rr, aofT+"SetOffset"); f != nil {
+		tr := sites(f, callTo("os.(*File).Truncate"))
+		if len(tr) == 0 {
+			c.fail(rr, fnName(f)+":truncates-file", c.pos(f.Pos()), "SetOffset moves fileOffset back and never truncates the file: after flush, close and reopen the size is the old one again and the discarded bytes are readable")
+		} else {
+			c.ruleMustPass(rr, f, nil, "f.Truncate", callTo("os.(*File).Truncate"), whenCond(true, func(a string) bool { return strings.Contains(a, " == ") && strings.Contains(a, "param:newOffset") }), false)
+		}
+	}
+	if f := c.mustFn(rr, mfT+"SetOffset"); f != nil {
+		rm := callTo("os.Remove", "os.RemoveAll")
+		dyn := func(in ssa.Instruction) bool {
+			cc := callOf(in)
+			return cc != nil && !cc.IsInvoke() && cc.StaticCallee() == nil && hasFieldSuffix(desc(cc.Value), "appRemove")
+		}
+		if len(sites(f, anyOf(rm, dyn))) == 0 {
+			c.fail(rr, fnName(f)+":drops-later-chunks", c.pos(f.Pos()), "SetOffset to an earlier chunk leaves the later chunk files in place: reopening picks the last chunk file as the head, so the size is the old one again")
+		} else {
+			c.ok(rr, fnName(f)+":drops-later-chunks", c.pos(f.Pos()), "later chunk files are removed")
+		}
+	}
+
 }
